@@ -176,6 +176,8 @@ class C06(PropertyCheck):
             "random_users": gen_acl.random_users(rng, 40 if q else 1500, t),
             "histories": gen_acl.histories(rng, 150 if q else 4000, t, 40, "h"),
             "malformed": gen_acl.histories(rng, 60 if q else 1500, t, 25, "m", malformed=True),
+            "files": gen_acl.file_histories(rng, 40 if q else 1000, t, 30, "f"),
+            "lifecycle": [gen_acl.lifecycle(rng, "l%d" % i, t, i) for i in range(12 if q else 200)],
             "keyed_exec": gen_acl.keyed_exec(rng, 36 if q else 1500, 25 if q else 40),
         }
 
